@@ -448,7 +448,9 @@ def gen_odd_btsd():
 def gen_other_admin_records():
     '''Administrative records of types other than the status report (no class bound to them):
     [type, content] with every kind of CBOR content, the "empty" values included.'''
-    contents = [0, 1, False, True, None, {}, {1: 2}, [], [1, [2]], '', 'text', b'', b'\x00\x01', 2 ** 32, -1]
+    contents = [0, 1, False, True, None, {}, {1: 2}, [], [1, [2]], '', 'text', b'', b'\x00\x01', 2 ** 32, -1,
+                # maps whose keys are not in the order a sorting encoder would produce (RFC 9171 does not ask for one)
+                {4: 1, 1: 2, 2: 3}, {'alpha': 1, 'be': 2}, {2: {9: 0, 3: 1}}, [{-1: 0, 0: 1}]]
     for rtype in (0, 2, 3, 23, 24, 65536):
         for content in contents:
             for kind in (0, 2):
